@@ -81,6 +81,12 @@ def run(pid, spec, repo_src, results):
         out['bounded_corpus'] = dict(cases=tried, seeds='0 (registered corpus) and 1..6 (random programs only)', discrepancies=len(found), first=(found[0] if found else None))
     except Exception as e:
         out['bounded_corpus'] = dict(error='%s: %s' % (type(e).__name__, str(e)[:200]))
+    # 4b. cross-unit links: what one unit assumes for a function is what another unit proves for its real body (vx/links.py)
+    try:
+        from . import links
+        out['cross_unit_links'] = links.check()
+    except Exception as e:
+        out['cross_unit_links'] = [dict(link='*', status='broken', detail='%s: %s' % (type(e).__name__, str(e)[:200]))]
     # 5. C17: the assumed from_iN contracts (A3) validated against the real rust_decimal code by complete Kani harnesses
     if pid == 'C17':
         try:
